@@ -1839,6 +1839,9 @@ class UserSpaceImpl(*_user_space_impl_base):
             "own_refs": self.on_del_ref
         }
 
+        # Dynamic spaces built from self copied the members being re-derived
+        self.clear_subs_rootitems()
+
         selfdict = getattr(self, attr)
         basedict = CustomChainMap(*[getattr(b, attr) for b in bases])
         selfkeys = list(selfdict)
